@@ -166,6 +166,13 @@ def main():
             sys.exit(0)
         msg, known = msgs[0]
         print(f'replay {args.replay}: {msg}' + (f' [matches known finding {known}]' if known else ''))
+        if known:
+            # what this case shows on this tree is a listed finding (section 7 of DESIGN.md): reported as such, not raised
+            from mc.engine.report import load_known
+            line = next((k['line'] for k in load_known().get('open', []) if k.get('id') == known), None)
+            if line:
+                print(line)
+                sys.exit(0)
         print(f'VIOLATION property={pid} replay={args.replay}')
         sys.exit(1)
 
